@@ -88,7 +88,8 @@ def rankedBy (env : VEnv) (r : Array Nat) : Bool :=
     (`∀ s < size, ∀ t ∈ inPlaceEdges env s, rankOf env t < rankOf env s`, see `Refine.ranked_spec`) -/
 def ranked (env : VEnv) : Bool := rankedBy env (rankTable env)
 
-/-- the tables the evaluator dereferences are complete: every `$ref` / `$dynamicRef` has a recorded target, and
+/-- the tables the evaluator dereferences are complete: every `$ref` / (under 2020-12: under draft-07 it is an unknown
+    keyword, which Resolve leaves unresolved) `$dynamicRef` has a recorded target, and
     every schema a keyword applies (in place or to a child of the instance) is a node of the store -/
 def closed (env : VEnv) : Bool :=
   (List.range env.st.size).all fun s =>
@@ -96,7 +97,7 @@ def closed (env : VEnv) : Bool :=
     | none => true
     | some n =>
       (n.ref == "" || ((env.info? s).bind (·.resolvedRef)).isSome) &&
-      (n.dynamicRef == "" || ((env.info? s).bind (·.resolvedDynamicRef)).isSome) &&
+      (n.dynamicRef == "" || env.draft != .d2020 || ((env.info? s).bind (·.resolvedDynamicRef)).isSome) &&
       (inPlaceEdges env s ++ descEdges n).all fun t => decide (t < env.st.size)
 
 end Go
